@@ -7,6 +7,7 @@ mod c10;
 mod c17;
 mod lang;
 mod ls;
+mod proj;
 mod root;
 
 fn cps_to_string(v: &Value) -> String {
@@ -41,6 +42,7 @@ fn main() {
             "c17tree" => c17::tree(&case),
             "lex" => lang::lex(&case),
             "internsched" => lang::intern_schedule(&case),
+            "projhist" => proj::history(&case),
             "libhist" => root::library_history(&case),
             "makeuse" => root::make_use_of(&case),
             "reset" => root::reset(&case),
